@@ -92,6 +92,9 @@ fn main() {
             }
         }
         ("cliw", "run") => {
+            if arg(&args, "--order").as_deref() == Some("alt") {
+                cli::ALT_ORDER.store(true, std::sync::atomic::Ordering::Relaxed);
+            }
             let cases: Vec<Case> = read_lines(&input)
                 .iter()
                 .filter_map(|l| cli::parse(l))
